@@ -174,6 +174,9 @@ func propC15(c *Ctx, r *Report) {
 	r.Clauses = append(r.Clauses, boundsStrictClause)
 	c.runBoundsStrict(r, "bounds.strict", inPkgs("msl", "glsl", "hlsl", "spirv"))
 	r.floor("bounds.strict", 4)
+	r.Clauses = append(r.Clauses, typeTextClause+" - the decision to leave a local variable without its zero initialiser")
+	c.runTypeByText(r, "type.bytext", inPkgs("msl", "glsl", "hlsl", "spirv"))
+	r.floor("type.renderedNames", 50)
 	r.floor("spirv.Block.walkers", 3)
 	r.floor("routing.index-sites", 3)
 	r.floor("hardened.ops", 6)
